@@ -1,91 +1,40 @@
 /-
-C15, finding F15a: the dispatcher can kill itself. Runner objects of one worker
-(Model/C15_O1.lean): `accept` (StartContainer), `probe` (a fresh successful probe), `startDone` (the
-completion closure of `startContainer`). `none` = `rr.Close()` on a closed runner = process panic.
+C15, finding F15a (fixed in /repo 18910db): the dispatcher could kill itself. Runner objects of one
+worker (Model/C15_O1.lean): `accept` (StartContainer), `probe` (a fresh successful probe),
+`startDone` (the completion closure of `startContainer`). `none` = `rr.Close()` on a closed runner =
+process panic ("close of closed channel").
 -/
 import ArvVerif.Proofs.C15_O1
 namespace ArvVerif.C15
 open ArvVerif.C14
 
-/-- what C15 needs of the pool: no interleaving of starts, probes and start completions makes the
-dispatcher panic -/
-def C15_no_self_crash_Full : Prop := ∀ ops : List RWOp, (RW.fresh.run ops).isSome = true
+/-- **No self-inflicted crash.** No interleaving of starts, probes and start completions on a worker
+makes `closeRunner` close a runner twice: the runner objects in `starting`/`running` stay pairwise
+distinct and open (`Good`), because the completion closure only moves a runner that is still the
+one in `starting`. For every script of any length over any containers. -/
+theorem C15_no_self_crash (ops : List RWOp) : (RW.fresh.run ops).isSome = true :=
+  run_total ops RW.fresh good_fresh
 
-/-- **It does not hold** of the current code: start a container; a probe adopts its process while
+/-- … from any state that satisfies the invariant, which every step preserves. -/
+theorem C15_no_self_crash_from (w : RW) (hg : Good w) (ops : List RWOp) : (w.run ops).isSome = true :=
+  run_total ops w hg
+
+/-- **Before the fix** the statement was false: start a container; a probe adopts its process while
 `crunch-run --detach` is still outstanding; the next probe finds it gone and closes the runner; the
-start command returns and the closure puts the closed runner back; the next probe closes it again. -/
-theorem C15_no_self_crash_full_fails : ¬ C15_no_self_crash_Full := by
+start command returns and the old closure puts the closed runner back; the next probe closes it
+again. (Witness kept in corpus/C15/f15a.txt; the check fails on it if the guard disappears.) -/
+theorem C15_no_self_crash_before_fix_fails :
+    ¬ ∀ ops : List RWOp, (RW.fresh.runOld ops).isSome = true := by
   intro h
   have := h [.accept 7, .probe [7], .probe [], .startDone 7, .probe []]
   revert this
   decide
 
-/-- every start completion finds its runner still in `starting` (C14's A3 in the form the code can
-check) -/
-def completesInStarting (w : RW) : List RWOp → Bool
-  | [] => true
-  | op :: rest =>
-    (match op with
-     | .startDone u => (match lookup w.pending u with
-        | none => true
-        | some r => lookup w.starting u == some r)
-     | _ => true) &&
-    match w.step op with
-    | none => true
-    | some w1 => completesInStarting w1 rest
+/-- the same script on the fixed code: the late completion finds its runner gone and does nothing -/
+example : RW.fresh.run [.accept 7, .probe [7], .probe [], .startDone 7, .probe []] =
+    some ⟨.idle, [], [], [0], [], [7], 1⟩ := by decide
 
-theorem startDone_eq_fixed (w : RW) (u : Uuid)
-    (h : (match lookup w.pending u with | none => true | some r => lookup w.starting u == some r) = true) :
-    w.startDone u = w.startDoneFixed u := by
-  unfold RW.startDone RW.startDoneFixed
-  cases hp : lookup w.pending u with
-  | none => rfl
-  | some r =>
-    rw [hp] at h
-    dsimp only at h ⊢
-    rw [if_pos (by simpa using h)]
-
-theorem run_eq_fixed : ∀ (ops : List RWOp) (w : RW), completesInStarting w ops = true → w.run ops = w.runFixed ops := by
-  intro ops
-  induction ops with
-  | nil => intro w _; rfl
-  | cons op rest ih =>
-    intro w h
-    unfold completesInStarting at h
-    rw [Bool.and_eq_true] at h
-    unfold RW.run RW.runFixed
-    cases op with
-    | accept u =>
-      simp only [RW.step, RW.stepFixed] at h ⊢
-      exact ih _ h.2
-    | probe alive =>
-      simp only [RW.step, RW.stepFixed] at h ⊢
-      cases hp : w.probe alive with
-      | none => rfl
-      | some w1 =>
-        rw [hp] at h
-        exact ih _ h.2
-    | startDone u =>
-      simp only [RW.step, RW.stepFixed] at h ⊢
-      rw [← startDone_eq_fixed w u h.1]
-      exact ih _ h.2
-
-/-- **Partial**: as long as every start command returns before a probe has adopted its process —
-the runner is still in `starting` when the closure runs — no interleaving panics. -/
-theorem C15_no_self_crash_partial (ops : List RWOp) (h : completesInStarting RW.fresh ops = true) :
-    (RW.fresh.run ops).isSome = true := by
-  rw [run_eq_fixed ops RW.fresh h]
-  exact runFixed_total ops RW.fresh good_fresh
-
-/-- **With the guard of fixes/F15a.patch** (`if wkr.starting[uuid] != rr { return }`) the full
-statement holds: no interleaving whatsoever panics. -/
-theorem C15_no_self_crash_fixed (ops : List RWOp) : (RW.fresh.runFixed ops).isSome = true :=
-  runFixed_total ops RW.fresh good_fresh
-
-/-- the hypothesis of the partial theorem is satisfiable by a run that starts, completes, adopts
-and closes a runner -/
-example : completesInStarting RW.fresh [.accept 7, .startDone 7, .probe [7], .probe []] = true := by decide
-
-example : (RW.fresh.run [.accept 7, .startDone 7, .probe [7], .probe []]).isSome = true := by decide
+/-- a completion that comes in time still moves the runner -/
+example : (RW.fresh.run [.accept 7, .startDone 7]).map (·.running) = some [(7, 0)] := by decide
 
 end ArvVerif.C15
